@@ -20,6 +20,21 @@ Theorem T04_1_format_code_bounded :
 Proof. intros. apply format_code_bounded. Qed.
 Print Assumptions T04_1_format_code_bounded.
 
+(* T04.1 for the public entry point: the wrapper main.format_code (final line break handling)
+   applies no stage of its own *)
+Theorem T04_1_format_code_entry_point_bounded :
+  forall (St : Type) (eqb : St -> St -> bool) (Pres : Type)
+         (skip_file is_blank valid : St -> bool) (indent_level : St -> nat)
+         (surface : Pres -> St -> Pres) (app : stage -> Pres -> St -> St) (minws : St -> St -> St)
+         (is_empty terminated : St -> bool) (add_nl : St -> St) (ends_lf : St -> bool) (drop_last : St -> St)
+         (n_multi : nat) safe keep p0 s0,
+    length (snd (format_code_outer_run St eqb Pres skip_file is_blank valid indent_level surface app minws
+                                       is_empty terminated add_nl ends_lf drop_last
+                                       n_multi MAX_FILE_PASSES safe keep p0 s0))
+    <= 2 * MAX_FILE_PASSES * n_multi + 16.
+Proof. intros. apply format_code_outer_bounded. Qed.
+Print Assumptions T04_1_format_code_entry_point_bounded.
+
 (* T04.1' fix() / chain() / sub() perform at most max_iter passes (T10.7) *)
 Theorem T04_1_fix_bounded :
   forall (A : Type) (pass : list A -> list A) (src_eqb : list A -> list A -> bool)
@@ -76,6 +91,24 @@ Theorem T04_8_skip_file_untouched :
                          n_multi max_file_passes safe keep p0 s0 = [].
 Proof. exact skip_file_returned_untouched. Qed.
 Print Assumptions T04_8_skip_file_untouched.
+
+(* T04.8' ... also through the wrapper, when the source lacks a final line break (appending "\n"
+   keeps the marker, dropping the last character undoes the appending) *)
+Theorem T04_8_skip_file_untouched_entry_point :
+  forall (St : Type) (eqb : St -> St -> bool) (Pres : Type)
+         (skip_file is_blank valid : St -> bool) (indent_level : St -> nat)
+         (surface : Pres -> St -> Pres) (app : stage -> Pres -> St -> St) (minws : St -> St -> St)
+         (is_empty terminated : St -> bool) (add_nl : St -> St) (ends_lf : St -> bool) (drop_last : St -> St)
+         (n_multi max_file_passes : nat) safe keep p0 s,
+    skip_file s = true ->
+    (skip_file (add_nl s) = true /\ ends_lf (add_nl s) = true /\ drop_last (add_nl s) = s) ->
+    format_code_outer St eqb Pres skip_file is_blank valid indent_level surface app minws
+                      is_empty terminated add_nl ends_lf drop_last n_multi max_file_passes safe keep p0 s = s
+    /\ snd (format_code_outer_run St eqb Pres skip_file is_blank valid indent_level surface app minws
+                                  is_empty terminated add_nl ends_lf drop_last n_multi max_file_passes
+                                  safe keep p0 s) = [].
+Proof. exact outer_skip_file_untouched. Qed.
+Print Assumptions T04_8_skip_file_untouched_entry_point.
 
 (* the bound is attained up to the constant: a successor chain exhausts both history loops *)
 Example T04_example_budget_exhausted :
